@@ -49,7 +49,18 @@ class ExcD(Exception):
         super().__init__(a, b)
 
 
-EXC_TYPES = {'ExcA': ExcA, 'ExcB': ExcB, 'ExcC': ExcC, 'KeyError': KeyError, 'ZeroDivisionError': ZeroDivisionError, 'ExcD': ExcD}
+import queue as _queue
+
+EXC_TYPES = {'ExcA': ExcA, 'ExcB': ExcB, 'ExcC': ExcC, 'KeyError': KeyError, 'ZeroDivisionError': ZeroDivisionError, 'ExcD': ExcD,
+             # classes the library (and the stdlib machinery it is built on) uses internally for its own control flow: user code may
+             # raise them just as well (a worker that calls q.get(timeout=..) raises queue.Empty, a client call raises TimeoutError)
+             'TimeoutError': TimeoutError, 'Empty': _queue.Empty, 'Full': _queue.Full, 'EOFError': EOFError}
+LIB_EXCS = ['TimeoutError', 'TimeoutError', 'Empty', 'Full', 'EOFError']
+
+
+def exc_choice(rng, base):
+    """an exception class name for a generated failure: mostly the harness's own classes, sometimes a library-internal one"""
+    return rng.choice(base) if rng.random() < 0.7 else rng.choice(LIB_EXCS)
 
 
 def make_exc(kind, x):
